@@ -91,8 +91,16 @@ def install(eng, cfg=None):
         return SQLITE_OK
     M['sqlite3_open_v2'] = m_open
     M['sqlite3_extended_result_codes'] = lambda st, a: SQLITE_OK
-    M['sqlite3_close_v2'] = lambda st, a: SQLITE_OK
-    M['sqlite3_close'] = lambda st, a: SQLITE_OK
+    def m_close(st, a):
+        # closing a connection rolls an open transaction back (as SQLite does); the committed store stays (one store per run: "the file")
+        q = sq(st); q.log.append(('close',))
+        if q.txn:
+            q.txn = 0; q.w_txn = 0; q.rolled += 1; q.log.append(('step', 'txn', 'ROLLBACK (implicit: connection closed inside a transaction)', {}, 'ok'))
+            if q.txn_snapshot is not None: q.tables = q.txn_snapshot; q.txn_snapshot = None
+            if q.rel is not None and q.rel_snapshot is not None: q.rel.restore(q.rel_snapshot); q.rel_snapshot = None
+        return SQLITE_OK
+    M['sqlite3_close_v2'] = m_close
+    M['sqlite3_close'] = m_close
     M['sqlite3_busy_timeout'] = lambda st, a: SQLITE_OK
 
     def m_prepare(st, a):
